@@ -332,6 +332,23 @@ theorem outs_sound (M : A → Ev → A) : ∀ (s : Stmt) (φ : Flags) (tr : List
           have := ihh _ _ _ _ hs2 (tr1.foldl M a) K2 h2
           rw [List.foldl_append]
           exact hsub _ (List.mem_cons_of_mem _ this)
+  | tryCatch b hd ihb ihh =>
+    intro φ tr e φ' h a O hO
+    simp only [outs] at hO
+    cases h1 : outs M b (a, φ) with
+    | none => rw [h1] at hO; cases hO
+    | some O1 =>
+      rw [h1] at hO
+      simp only at hO
+      rcases h with ⟨hs, hne⟩ | ⟨tr1, φ1, tr2, hs1, hs2, rfl⟩
+      · have hm := ihb _ _ _ _ hs a O1 h1
+        apply (thenOn_sound _ _ O1 O hO _ hm).1
+        cases e <;> simp at hne ⊢
+      · have hm := ihb _ _ _ _ hs1 a O1 h1
+        obtain ⟨K, hK, hsub⟩ := (thenOn_sound _ _ O1 O hO _ hm).2 (by simp)
+        have := ihh _ _ _ _ hs2 (tr1.foldl M a) K hK
+        rw [List.foldl_append]
+        exact hsub _ this
   | «opaque» w =>
     intro φ tr e φ' _ a O hO
     simp only [outs] at hO
